@@ -67,6 +67,17 @@ pub fn candidates(prop: &str) -> Vec<Value> {
                 v.push(json!({"call": "multi", "group": g, "scheme": scheme_name(s), "n": n, "kind": kind}));
             }}}}
         }
+        "C17" => {
+            for kind in ["sk_be_0x80", "sk_le_0x80", "sk_try_from_0x80", "ske_empty", "ske_be_empty", "ske_le_empty", "ts_future", "ts_max"] {
+                v.push(json!({"call": "no_panic", "group": "G1", "kind": kind}));
+                v.push(json!({"call": "no_panic", "group": "G2", "kind": kind}));
+            }
+        }
+        "C15" | "C16" => {
+            for g in ["G1", "G2"] { for k in 0..5 { for kind in ["sk_bytes", "ske_vec", "ske_be", "ske_le", "pk_bytes", "zero_import"] {
+                v.push(json!({"call": "codec", "group": g, "key": k, "kind": kind}));
+            }}}
+        }
         "C10" => {
             for g in ["G1", "G2"] { for s in schemes() { for kind in ["complete", "other_challenge", "other_msg", "other_key", "tamper_u", "tamper_v", "ts_no_timeout", "ts_within", "ts_elapsed", "ts_altered", "ts_future", "ts_max"] {
                 v.push(json!({"call": "pok", "group": g, "scheme": scheme_name(s), "kind": kind}));
@@ -93,6 +104,8 @@ pub fn run(c: &Value) -> Option<String> {
         "aggregate" => by_group!(c, aggregate),
         "multi" => by_group!(c, multi),
         "pok" => by_group!(c, pok),
+        "codec" => by_group!(c, codec),
+        "no_panic" => by_group!(c, no_panic),
         _ => None,
     });
     match r { Ok(o) => o, Err(p) => Some(format!("panicked: {}", p)) }
@@ -349,5 +362,54 @@ fn pok<C: BlsSignatureImpl + PartialEq + Copy>(c: &Value, keys: &[SecretKey<C>])
         "other_key" => if proof.verify(keys[4].public_key(), &m, y).is_ok() { Some("accepted for another key".into()) } else { None },
         "tamper_u" => if tamper(&proof, 0).verify(pk, &m, y).is_ok() { Some("modified u accepted".into()) } else { None },
         _ => if tamper(&proof, 1).verify(pk, &m, y).is_ok() { Some("modified v accepted".into()) } else { None },
+    }
+}
+
+/// every call must RETURN (a value, None or an error); a panic is reported by `run`
+fn no_panic<C: BlsSignatureImpl + PartialEq + Copy>(c: &Value, keys: &[SecretKey<C>]) -> Option<String> {
+    let mut b = [0u8; 32];
+    match c["kind"].as_str().unwrap() {
+        "sk_be_0x80" => { b[31] = 0x80; let _ = SecretKey::<C>::from_be_bytes(&b); }
+        "sk_le_0x80" => { b[0] = 0x80; let _ = SecretKey::<C>::from_le_bytes(&b); }
+        "sk_try_from_0x80" => { b[5] = 0x80; let _ = SecretKey::<C>::try_from(&b[..]); }
+        "ske_empty" => { let _ = SecretKeyEnum::try_from(&[][..]); }
+        "ske_be_empty" => { let _ = SecretKeyEnum::from_be_bytes(&[]); }
+        "ske_le_empty" => { let _ = SecretKeyEnum::from_le_bytes(&[]); }
+        k => {
+            let sk = &keys[3];
+            let m = b"m".to_vec();
+            let sig = sk.sign(SignatureSchemes::Basic, &m).ok()?;
+            let mut p = ProofOfKnowledgeTimestamp::<C>::generate(&m, sig).ok()?;
+            if k == "ts_future" { p.timestamp += 1_000_000; } else { p.timestamp = u64::MAX; }
+            let _ = p.verify(sk.public_key(), &m, Some(1000));
+        }
+    }
+    None
+}
+
+trait Curve { fn wrap(sk: Scalar) -> SecretKeyEnum; fn is(k: &SecretKeyEnum) -> bool; }
+impl Curve for G1 { fn wrap(sk: Scalar) -> SecretKeyEnum { SecretKeyEnum::G1(SecretKey(sk)) } fn is(k: &SecretKeyEnum) -> bool { matches!(k, SecretKeyEnum::G1(_)) } }
+impl Curve for G2 { fn wrap(sk: Scalar) -> SecretKeyEnum { SecretKeyEnum::G2(SecretKey(sk)) } fn is(k: &SecretKeyEnum) -> bool { matches!(k, SecretKeyEnum::G2(_)) } }
+
+fn codec<C: BlsSignatureImpl + PartialEq + Copy>(c: &Value, keys: &[SecretKey<C>]) -> Option<String> {
+    let sk = &keys[c["key"].as_u64().unwrap() as usize];
+    let g1 = c["group"] == "G1";
+    let e = if g1 { <G1 as Curve>::wrap(keys_g1()[c["key"].as_u64().unwrap() as usize].0) } else { <G2 as Curve>::wrap(keys_g2()[c["key"].as_u64().unwrap() as usize].0) };
+    let same = |k: &SecretKeyEnum| if g1 { <G1 as Curve>::is(k) } else { <G2 as Curve>::is(k) };
+    match c["kind"].as_str().unwrap() {
+        "sk_bytes" => {
+            let be = sk.to_be_bytes(); let le = sk.to_le_bytes();
+            let mut r = le; r.reverse();
+            if be != r { return Some("to_be_bytes is not the reverse of to_le_bytes".into()); }
+            match Option::<SecretKey<C>>::from(SecretKey::<C>::from_be_bytes(&be)) { Some(k) if k == *sk => {}, _ => return Some("from_be_bytes(to_be_bytes(sk)) != sk".into()) }
+            match Option::<SecretKey<C>>::from(SecretKey::<C>::from_le_bytes(&le)) { Some(k) if k == *sk => {}, _ => return Some("from_le_bytes(to_le_bytes(sk)) != sk".into()) }
+            let v: Vec<u8> = Vec::from(sk);
+            match SecretKey::<C>::try_from(v.as_slice()) { Ok(k) if k == *sk => None, _ => Some("try_from(Vec::from(sk)) != sk".into()) }
+        }
+        "ske_vec" => { let v: Vec<u8> = Vec::from(&e); match SecretKeyEnum::try_from(v.as_slice()) { Ok(k) if k == e && same(&k) => None, Ok(_) => Some("SecretKeyEnum bytes come back as another variant/key".into()), Err(x) => Some(format!("SecretKeyEnum::try_from(Vec::from(k)) failed: {}", x)) } }
+        "ske_be" => { let v = e.to_be_bytes(); match Option::<SecretKeyEnum>::from(SecretKeyEnum::from_be_bytes(&v)) { Some(k) if k == e && same(&k) => None, Some(_) => Some("SecretKeyEnum big-endian bytes come back as another variant/key".into()), None => Some("SecretKeyEnum::from_be_bytes(to_be_bytes(k)) is None".into()) } }
+        "ske_le" => { let v = e.to_le_bytes(); match Option::<SecretKeyEnum>::from(SecretKeyEnum::from_le_bytes(&v)) { Some(k) if k == e && same(&k) => None, Some(_) => Some("SecretKeyEnum little-endian bytes come back as another variant/key".into()), None => Some("SecretKeyEnum::from_le_bytes(to_le_bytes(k)) is None".into()) } }
+        "pk_bytes" => { let pk = sk.public_key(); let v: Vec<u8> = Vec::from(&pk); match PublicKey::<C>::try_from(v.as_slice()) { Ok(p) if p == pk => None, _ => Some("public key bytes do not round-trip".into()) } }
+        _ => { if SecretKey::<C>::try_from(&[0u8; 32][..]).is_ok() { Some("zero key imported".into()) } else { None } }
     }
 }
